@@ -522,11 +522,21 @@ def r_splitarith(prog, tier):
             for (fa, _) in facts_at(cfg, n.id):
                 if fa[0] in ('opaque', 'truthy') and '.isdigit()' in fa[1] and fa[2] is True:
                     validated = True
+        late_check = None
+        if t == INT and what == 'append' and not validated and n.loops:
+            for m in cfg.nodes:
+                if m.kind == 'assume' and m.pol and norm_test(m.ast, True) in (('cmp', '%s[-1]' % P, '<', '0'),) \
+                        and n.loops[-1] not in m.loops:
+                    late_check = m
         ok = True if (t == NNI or (t == INT and validated)) else None
         if t == NNI:
             why = 'abstract value NonNegInt'
         elif t == INT and validated:
             why = 'integer read from the specification, negative values rejected right after (`%s[-1] < 0` raises)' % P
+        elif t == INT and late_check is not None:
+            ok = False
+            why = 'the sign check `%s` (line %d) is outside the loop that reads the parts: only the last part is checked, ' \
+                  'a negative size in an earlier part is accepted' % (unparse(late_check.ast), late_check.lineno)
         elif t == INT and A.from_spec(val) and not any(
                 isinstance(x_, ast.Compare) and any(isinstance(c_, ast.Constant) and c_.value == 0 for c_ in [x_.left] + x_.comparators)
                 for x_ in walk_own(f.node)):
